@@ -258,6 +258,45 @@ pub fn io_json(events: &[IoEvent]) -> Vec<Value> {
         .collect()
 }
 
+/// The WAL entries written by a call, reassembled from its buffered writes:
+/// [kind, queue index, position, number of records, entry length in bytes].
+pub fn entries_json(script: &Script, events: &[IoEvent]) -> Vec<Value> {
+    let mut out = Vec::new();
+    let mut buffer: Vec<u8> = Vec::new();
+    for event in events {
+        if let IoEvent::BufWrite { bytes, .. } = event {
+            if bytes.len() < 7 {
+                continue;
+            }
+            let frame_type = bytes[6];
+            if frame_type == 1 || frame_type == 2 {
+                buffer.clear();
+            }
+            buffer.extend_from_slice(&bytes[7..]);
+            if frame_type == 1 || frame_type == 4 {
+                let len = buffer.len();
+                let line = match verif::decode_entry(&buffer) {
+                    Some(verif::Entry::Append { queue, records, .. }) => json!([
+                        "append", script.queue_index(&queue),
+                        records.first().map(|(pos, _)| script.enc(*pos)).unwrap_or(-1), records.len(), len]),
+                    Some(verif::Entry::Truncate { queue, position }) => {
+                        json!(["trunc", script.queue_index(&queue), script.enc(position), 0, len])
+                    }
+                    Some(verif::Entry::Position { queue, position }) => {
+                        json!(["pos", script.queue_index(&queue), script.enc(position), 0, len])
+                    }
+                    Some(verif::Entry::Delete { queue, position }) => {
+                        json!(["del", script.queue_index(&queue), script.enc(position), 0, len])
+                    }
+                    None => json!(["undecodable", -1, -1, 0, len]),
+                };
+                out.push(line);
+            }
+        }
+    }
+    out
+}
+
 /// What one step did.
 pub struct StepRecord {
     pub idx: usize,
@@ -480,7 +519,7 @@ pub fn run_script_in(
                     record.steps.push(StepRecord {
                         idx,
                         begin,
-                        end: json!({"ev": "end", "i": idx, "res": res_json("ok", -1, 0, 0), "st": st, "io": io_json(&events)}),
+                        end: json!({"ev": "end", "i": idx, "res": res_json("ok", -1, 0, 0), "st": st, "io": io_json(&events), "ent": entries_json(script, &events)}),
                         events,
                         kind: "ok".to_string(),
                     });
@@ -518,7 +557,7 @@ pub fn run_script_in(
         record.steps.push(StepRecord {
             idx,
             begin,
-            end: json!({"ev": "end", "i": idx, "res": res, "st": st, "io": io_json(&events)}),
+            end: json!({"ev": "end", "i": idx, "res": res, "st": st, "io": io_json(&events), "ent": entries_json(script, &events)}),
             events,
             kind,
         });
